@@ -603,6 +603,13 @@ class StateMachine:
                 self.done()
 
                 if self.__should_engage:
+                    # The machine starts over at the instant the last state
+                    # expired, so every repetition lasts as long as the first
+                    self.__start += new_state_start
+                    tm -= new_state_start
+                    new_state_start = 0
+                    self.__engaged = True
+
                     self.next_state(self.__first)
                     state = self.__state
                 else:
